@@ -635,6 +635,34 @@ def run(ctx):
                    + ": not rewritten in its own style")
             return
 
+    # ---- related words: an earlier word of the term is a proper prefix of a later one (`log_login`, `file_filename`), the
+    #      other way round, a word repeated (`tool_tool`), the replacement containing a search word — the per-file pre-screen
+    #      (word groups, Aho-Corasick leftmost-first) and the alternation see these differently from unrelated words -------
+    REL = [(["log", "login"], ["baz", "qux"]), (["login", "log"], ["nova"]), (["file", "filename"], ["lemon", "tiger"]),
+           (["user", "username", "user"], ["widget", "gadget"]), (["tool", "tool"], ["gamma", "delta"]),
+           (["test", "testing"], ["test", "bar"]), (["foo", "bar"], ["foo", "foobar"]), (["ab", "abc"], ["qux", "alpha"])]
+    rcases, rreqs = [], []
+    k = 0
+    for S, R in (REL if ctx.thorough else REL[:2] + rng.sample(REL[2:], 3)):
+        for sst, rst in (("snake", "snake"), ("camel", "kebab"), ("title", "pascal")):
+            for opts in ("default", "i=title,sentence,lower_sentence,upper_sentence,dot"):
+                for st in gen.V12:
+                    d1, d2 = DELIMS[k % len(DELIMS)]
+                    k += 1
+                    c = mkcase(S, R, sst, rst, opts, st, d1, d2)
+                    rcases.append(c)
+                    rreqs.append(mkreq(forms, c["line"], c["search"], c["replace"], opts))
+    for c, (req, impl, model) in zip(rcases, correspond(ctx, "rewriteline (related words)", rreqs)):
+        ctx.case(req)
+        status, got = out_line(impl)
+        cls = classify(c, got)
+        ctx.count("related-words:" + (cls or "ok"))
+        if status != "ok" or (cls is not None and (cls == "VIOLATION" or not ctx.known(cls))):
+            report(ctx, c, req, impl, model, "VIOLATION",
+                   "term with related words (prefix of one another / repeated): occurrence in " + c["style"]
+                   + " not rewritten in its own style")
+            return
+
     # ---- plural variants off, other contexts: a sample of the same oracle -----------------------------------------
     cases2, reqs2 = [], []
     for _ in range(1500 if ctx.thorough else 300):
